@@ -33,6 +33,7 @@ import (
 	"github.com/thushan/olla/internal/config"
 	"github.com/thushan/olla/internal/core/domain"
 	"github.com/thushan/olla/internal/core/ports"
+	"github.com/thushan/olla/internal/app/services"
 	"github.com/thushan/olla/internal/verif/h/lib/explore"
 	"github.com/thushan/olla/internal/verif/h/lib/hutil"
 	"github.com/thushan/olla/internal/verif/h/lib/report"
@@ -254,7 +255,8 @@ func newWorld(n int, strat string) *world {
 		panic(err)
 	}
 	w.hc = health.NewHTTPHealthChecker(&loggingRepo{w.repo, &w.log, "health"}, lg, w.client)
-	w.retry = core.NewRetryHandler(&discAdapter{&loggingRepo{w.repo, &w.log, "proxy"}}, lg)
+	// the retry handler reports failures through the adapter production wires in (ProxyServiceWrapper.Start)
+	w.retry = core.NewRetryHandler(services.VerifRepositoryAdapter(&loggingRepo{w.repo, &w.log, "proxy"}), lg)
 	sel, err := balancer.NewFactory(stats.NewCollector(lg)).Create(strat)
 	if err != nil {
 		panic(err)
@@ -398,6 +400,20 @@ func runE2(n int, strat string, h []ev) {
 				var ds []dispatch
 				w.clientGone = e.kind == "request-refuse-client-gone"
 				w.request(e.mask, &ds)
+				// the request has been answered: every attempt of it that failed is a completed failed attempt, and a
+				// request arriving now must not find that endpoint in rotation - whatever the request left running
+				if now, _ := w.repo.GetHealthy(ctx); problem == "" {
+					for _, x := range now {
+						for _, d := range ds {
+							if d.ep == x.Name && e.mask&(1<<uint(d.ep[0]-'A')) != 0 && !w.clientGone {
+								problem = fmt.Sprintf("the request's attempt on %s failed at connection level and the request has returned, but the repository still lists %s as healthy at that moment (the failure mark is not in place when the next request can arrive)", d.ep, d.ep)
+							}
+						}
+					}
+					if problem != "" {
+						return
+					}
+				}
 				vsched.WaitOthers()
 				tried := map[string]bool{}
 				for _, d := range ds {
